@@ -182,6 +182,9 @@ class Universe:
                 if not fi.uses_tbl and any(c.uses_tbl for c in fi.callees.values()):
                     fi.uses_tbl = True
                     changed = True
+                if not fi.uses_startpc and any(c.uses_startpc for c in fi.callees.values()):
+                    fi.uses_startpc = True
+                    changed = True
         # topological order
         state = {}
 
@@ -700,7 +703,12 @@ class Gen:
                     nm += '_mem'
                 largs.append('(%s c%s)' % (afi.lean, ' t' if afi.uses_tbl else ''))
         if tfi.uses_startpc:
-            self.err('call of reset-like function from translated code', e)
+            # the callee is specialised on `self.start_pc is None`; so is the caller
+            if self.spec.get('start_pc') == 'none':
+                nm += '_vec'
+            else:
+                nm += '_at'
+                largs.append('start_pc')
         app = 'Py65.Gen.%s.%s c%s%s' % (tfi.ns, nm, ' t' if tfi.uses_tbl else '',
                                         ''.join(' ' + a for a in largs))
         if tfi.returns_value:
@@ -907,9 +915,13 @@ def run(outdir, report):
         texts['%s.lean' % ns] = body
         prev.append(ns)
 
-    # Devices.lean
+    # Tables.lean (pure data, no dependency on the translated code) and Devices.lean
+    tb_lines = [HEADER % ('live class tables of the three device modules',
+                          ' '.join(srchash[ns] for ns, _, _ in DEVICES)),
+                'namespace Py65.Gen', '']
     d = [HEADER % ('live classes/instances of the three device modules',
                    ' '.join(srchash[ns] for ns, _, _ in DEVICES)),
+         'import Py65.Gen.Tables',
          '\n'.join('import Py65.Gen.%s' % ns for ns, _, _ in DEVICES), '',
          'namespace Py65.Gen', 'open Py65', '']
     funcs_by_id = uni.funcs
@@ -941,30 +953,39 @@ def run(outdir, report):
         for i in range(0, 256, 4):
             d.append('  ' + ', '.join(hs[i:i + 4]) + (',' if i < 252 else ''))
         d.append(']')
-        d.append('def %s.handlerNames : List String := [' % dev)
+        t_ = tb_lines
+        t_.append('def %s.handlerNames : List String := [' % dev)
         names = ['%s.%s' % (uni.get(f).ns, uni.get(f).name) for f in cls.instruct]
         for i in range(0, 256, 8):
-            d.append('  ' + ', '.join(lean_str(x) for x in names[i:i + 8]) + (',' if i < 248 else ''))
-        d.append(']')
+            t_.append('  ' + ', '.join(lean_str(x) for x in names[i:i + 8]) + (',' if i < 248 else ''))
+        t_.append(']')
+        t_.append('def %s.BYTE_WIDTH : Nat := %d' % (dev, inst.BYTE_WIDTH))
+        t_.append('def %s.ADDR_WIDTH : Nat := %d' % (dev, inst.ADDR_WIDTH))
+        t_.append('def %s.BYTE_FORMAT : String := %s' % (dev, lean_str(inst.BYTE_FORMAT)))
+        t_.append('def %s.ADDR_FORMAT : String := %s' % (dev, lean_str(inst.ADDR_FORMAT)))
+        t_.append('def %s.name : String := %s' % (dev, lean_str(inst.name)))
         for tb in ('cycletime', 'extracycles'):
             vals = getattr(cls, tb)
             for v in vals:
                 if not isinstance(v, int) or isinstance(v, bool):
                     raise Unsupported('%s.%s has a non-int entry' % (modname, tb))
-            d.append('def %s.%sL : List Int := [' % (dev, tb))
+            t_.append('def %s.%sL : List Int := [' % (dev, tb))
             for i in range(0, 256, 16):
-                d.append('  ' + ', '.join(lit(v) for v in vals[i:i + 16]) + (',' if i < 240 else ''))
-            d.append(']')
+                t_.append('  ' + ', '.join(lit(v) for v in vals[i:i + 16]) + (',' if i < 240 else ''))
+            t_.append(']')
         dis = cls.disassemble
-        d.append('def %s.disassembleL : List (String × String) := [' % dev)
+        t_.append('def %s.disassembleL : List (String × String) := [' % dev)
         for i in range(0, 256, 4):
             row = []
             for v in dis[i:i + 4]:
                 if not (isinstance(v, tuple) and len(v) == 2 and all(isinstance(z, str) for z in v)):
                     raise Unsupported('%s.disassemble has a malformed entry' % modname)
                 row.append('(%s, %s)' % (lean_str(v[0]), lean_str(v[1])))
-            d.append('  ' + ', '.join(row) + (',' if i < 252 else ''))
-        d.append(']')
+            t_.append('  ' + ', '.join(row) + (',' if i < 252 else ''))
+        t_.append(']')
+        t_.append('''def {dev}.disassemble (n : Int) : String × String :=
+  if 0 ≤ n ∧ n < 256 then {dev}.disassembleL.getD n.toNat ("???", "imp") else ("???", "imp")
+'''.format(dev=dev))
         d.append('''
 /-- `cls.instruct[n]` for a list index `0 ≤ n < 256` (Python raises IndexError above, and
 wraps below; both are outside the well-formed states, where the model acts as a no-op). -/
@@ -974,8 +995,6 @@ def {dev}.cycletime (n : Int) : Int :=
   if 0 ≤ n ∧ n < 256 then {dev}.cycletimeL.getD n.toNat 0 else 0
 def {dev}.extracycles (n : Int) : Int :=
   if 0 ≤ n ∧ n < 256 then {dev}.extracyclesL.getD n.toNat 0 else 0
-def {dev}.disassemble (n : Int) : String × String :=
-  if 0 ≤ n ∧ n < 256 then {dev}.disassembleL.getD n.toNat ("???", "imp") else ("???", "imp")
 def {dev}.tbl : Tbl := ⟨{dev}.instruct, {dev}.cycletime, {dev}.extracycles⟩
 '''.format(dev=dev))
         # entry points
@@ -1001,6 +1020,8 @@ def {dev}.tbl : Tbl := ⟨{dev}.instruct, {dev}.cycletime, {dev}.extracycles⟩
         d.append('')
     d.append('end Py65.Gen')
     texts['Devices.lean'] = '\n'.join(d) + '\n'
+    tb_lines.append('end Py65.Gen')
+    texts['Tables.lean'] = '\n'.join(tb_lines) + '\n'
 
     os.makedirs(outdir, exist_ok=True)
     written = []
